@@ -51,7 +51,8 @@ type DReload struct {
 
 // DScenario is one world-D run
 type DScenario struct {
-	Level   string    `json:"level"` // api | composed
+	Fine    bool      `json:"fine_yields,omitempty"` // every larger function entry of the code under test is a preemption point in this run
+	Level   string    `json:"level"`                 // api | composed
 	Conns   []DConn   `json:"conns"`
 	Reloads []DReload `json:"reloads"`
 }
@@ -61,6 +62,9 @@ func (w *worldD) Decode(raw json.RawMessage) (any, error) {
 	err := json.Unmarshal(raw, &s)
 	return &s, err
 }
+
+// SetFine switches fine-grained interleaving on for this scenario
+func (s *DScenario) SetFine(v bool) { s.Fine = v }
 
 func (w *worldD) Generate(r *simrt.Rand, profile, tier string) any {
 	s := &DScenario{Level: profile}
@@ -327,6 +331,7 @@ func reloadCounts() (ok, fail float64) {
 
 func (w *worldD) Run(t *testing.T, profile string, sc any, cfg simrt.Config) *Outcome {
 	s := sc.(*DScenario)
+	cfg.FineYields = s.Fine
 	out := &Outcome{}
 	r := &dRun{s: s, out: out, delivered: map[string]int{}, sent: map[string]string{}, apiRecs: map[*base.LogRecord]string{}}
 	logger.SetOutput(&r.logbuf)
